@@ -16,7 +16,7 @@ MAJORS = (0, 1, 2, 3, 4, 2**32 - 1)
 MINORS = (0, 9, 10, 11)
 EXPECTED = "mydev"
 ORDERS = ("two-chunks", "one-chunk", "bytewise", "connect-first", "verdict-twice", "hello-twice", "one-chunk+DR", "then-DR")
-NOISE_NAMES = ("absent", "equal", "different", "empty", "case")
+NOISE_NAMES = ("absent", "equal", "different", "empty", "case", "not-utf8")
 HELLO_NAMES = ("empty", "equal", "other", "case", "longer")  # near misses: names are compared exactly
 
 
@@ -28,7 +28,8 @@ def one_case(c: dict[str, Any]) -> dict[str, Any]:
     noise = c["noise"]
     exp_name = EXPECTED if c["expected"] else None
     hello_name = {"empty": "", "equal": EXPECTED, "other": "otherdev", "case": "MyDev", "longer": "mydev1"}[c["name"]]
-    nname = {"absent": None, "equal": EXPECTED, "different": "otherdev", "empty": "", "case": "MYDEV"}[c.get("noise_name", "equal")]
+    nname = {"absent": None, "equal": EXPECTED, "different": "otherdev", "empty": "", "case": "MYDEV",
+             "not-utf8": EXPECTED.encode() + b"\xff"}[c.get("noise_name", "equal")]
     via_setter = c.get("via") == "setter"
     w = ConnWorld(noise=noise, client=True, expected_name=None if via_setter else exp_name, password="pw" if c["password"] else None,
                   login=c["login"], device_name=nname if noise else hello_name)
@@ -59,7 +60,15 @@ def one_case(c: dict[str, Any]) -> dict[str, Any]:
             noise_reject = exp_name is not None and nname is not None and nname != exp_name
         conn_ok = not c["invalid"]
         chunks: list[bytes] = []
-        if not (noise and noise_reject):
+        # a device answers what it is asked: after a server hello that must be refused a correct client asks nothing more, but if it
+        # did send its hello request the (unsuspecting) device goes on exactly as it would otherwise
+        client_went_on = False
+        if noise and noise_reject:
+            try:
+                client_went_on = "HelloRequest" in w.sent_names()
+            except Exception:  # noqa: BLE001
+                client_went_on = False
+        if not (noise and noise_reject) or client_went_on:
             order = c["order"]
             H = mk("HelloResponse", api_version_major=c["major"], api_version_minor=c["minor"], server_info="s", name=hello_name)
             CR = mk("ConnectResponse", invalid_password=c["invalid"])
@@ -145,6 +154,8 @@ def one_case(c: dict[str, Any]) -> dict[str, Any]:
                 exc = res[1]  # type: ignore[index]
                 if not isinstance(exc, APIConnectionError):
                     viol = f"connect raised {type(exc).__name__}, not a connection error"
+                elif noise_reject and isinstance(nname, bytes):
+                    pass  # a name that is not text is not the expected name; which connection error says so is not specified
                 elif noise_reject:
                     if not isinstance(exc, BadNameAPIError) or getattr(exc, "received_name", None) != nname:
                         viol = f"expected bad-name error carrying {nname!r}, got {type(exc).__name__} ({getattr(exc, 'received_name', None)!r})"
@@ -217,6 +228,8 @@ def cases(tier: str) -> list[dict[str, Any]]:
     ):
         if not login and invalid:
             continue
+        if nn == "not-utf8" and not expected:
+            continue  # nothing is specified for a device whose announced name is not text when no name is expected
         out.append({"noise": True, "noise_name": nn, "major": major, "minor": 10, "name": name, "expected": expected, "login": login,
                     "password": False, "invalid": invalid, "order": order})
     return out
